@@ -229,7 +229,18 @@ def run(ctx: Ctx):
     return "other", ("Mixed: tree / block-subset obligations proved on the real source; find_group_cohorts is checked exhaustively up to a size bound (bounded, not proof). " + note)
 
 
+def _case_of(payload):
+    if "case" in payload:
+        return payload["case"]
+    m = payload.get("model")
+    return m.get("case") if isinstance(m, dict) else None
+
+
 def replay(payload):
+    if _case_of(payload) is None:
+        print("REPLAY: obligation", payload.get("obligation"), "-", payload.get("formula"), "| solver:", str(payload.get("solver_output"))[:500])
+        return 1
+    payload = {**payload, "case": _case_of(payload)}
     case = payload["case"]
     r = check_planner(case) if "labels" in case else check_closure(case)
     print("REPLAY:", "contract holds" if r is None else r["why"])
